@@ -274,6 +274,24 @@ pub fn nth_repeat(i: u64) -> String {
     s
 }
 
+/// Escape values at the edges of what an escape can denote, enumerated in ordered pairs inside a
+/// double-quoted scalar (surrogate halves in both orders, the last and first-beyond code points,
+/// NUL, C1 controls, BOM, truncated and non-hex forms).
+pub const ESCAPES: [&str; 26] = [
+    "\\u0041", "\\u0000", "\\x00", "\\xFF", "\\x7F", "\\u0080", "\\u00FF", "\\uD7FF", "\\uD800", "\\uDBFF", "\\uDC00", "\\uDFFF", "\\uE000", "\\uFFFD",
+    "\\uFFFE", "\\uFFFF", "\\uFEFF", "\\U0001F600", "\\U0010FFFF", "\\U00110000", "\\UFFFFFFFF", "\\U0000D800", "\\uD83D", "\\uDE00", "\\u12", "\\uZZZZ",
+];
+pub fn escape_pair_count() -> u64 {
+    (ESCAPES.len() * ESCAPES.len() * 2) as u64
+}
+pub fn nth_escape_pair(i: u64) -> String {
+    let sep = if i % 2 == 0 { "" } else { "a" };
+    let j = i / 2;
+    let a = ESCAPES[(j % ESCAPES.len() as u64) as usize];
+    let b = ESCAPES[((j / ESCAPES.len() as u64) % ESCAPES.len() as u64) as usize];
+    format!("k: \"{a}{sep}{b}\"\n")
+}
+
 pub struct Gen<'a> {
     pub r: SplitMix64,
     pub corpus: &'a Corpus,
@@ -873,7 +891,11 @@ impl<'a> Gen<'a> {
                 6 => s.push_str("\\\\"),
                 7 => s.push_str("\\\n   "),
                 8 => s.push_str(" \n  \n  "),
-                9 => s.push_str("\\uD83D"),
+                9 => {
+                    let (a, b) = (*self.r.pick(&ESCAPES), *self.r.pick(&ESCAPES));
+                    s.push_str(a);
+                    s.push_str(b);
+                }
                 10 => s.push_str(*self.r.pick(&["\\xZ1", "\\", "\\\r\n  ", "  \n", "\t\n\t", "\\ ", "\\u12", "\n... ", "\\N\\_\\L\\P\\e\\0\\a\\b\\v\\f\\r\\/"])),
                 _ => {
                     let w = self.word();
